@@ -53,6 +53,27 @@ pub struct Snap {
     pub legacy: usize,
 }
 
+/// hub → dispatcher → reward contract and reward contract → hub → bSei token all name the system's
+/// own contracts (what the balance mirror depends on; denominations and rates do not matter)
+pub fn mirror_wired(c: &Chain) -> bool {
+    let w = c.hub_wiring();
+    let d: Option<basset::dispatcher::ConfigResponse> = c.q(DISP, &basset_sei_rewards_dispatcher::msg::QueryMsg::Config {}).ok();
+    let r: Option<basset::reward::ConfigResponse> = c.q(REWARD, &basset::reward::QueryMsg::Config {}).ok();
+    w[0] == Some(DISP)
+        && w[2] == Some(BSEI)
+        && d.map(|d| id_of(&d.bsei_reward_contract) == REWARD && id_of(&d.hub_contract) == HUB).unwrap_or(false)
+        && r.map(|r| id_of(&r.hub_contract) == HUB).unwrap_or(false)
+}
+
+/// staking coins that ride along with a message to the hub: the hub counts them in its balance
+/// before the handler runs, like any other unsolicited transfer
+pub fn attached_to_hub(op: &Op) -> u128 {
+    match op {
+        Op::Tx { target, funds, .. } if *target == HUB => funds.iter().filter(|f| f.0 == 0).map(|f| f.1).sum(),
+        _ => 0,
+    }
+}
+
 /// the hub names the two token contracts of the system (whose burns call it back)
 pub fn hub_wired_to_tokens(c: &Chain) -> bool {
     let w = c.hub_wiring();
@@ -366,6 +387,9 @@ pub struct StepCtx<'a> {
     pub chain_post: &'a Chain,
     /// E3: trusted owner configuration still in force for this history
     pub envelope: bool,
+    /// the addresses along the bSei → reward-contract mirror path have been the system's own ever
+    /// since genesis (denominations, rates and periods may have been reconfigured)
+    pub mirror_ok: bool,
     pub err: &'a str,
     pub deep: bool,
     /// what the reward contract should have on record according to the bank history (C15)
@@ -503,7 +527,7 @@ pub fn check_step(cx: &StepCtx) -> Vec<Violation> {
     }
 
     // ---------------------------------------------------------------- C16: reward mirror
-    if cx.envelope {
+    if cx.envelope || cx.mirror_ok {
         for a in cast_all().iter() {
             let tb = *post.bal_b.get(a).unwrap_or(&0);
             let rb = post.holders.get(a).map(|h| h.0).unwrap_or(0);
@@ -770,7 +794,7 @@ pub fn check_step(cx: &StepCtx) -> Vec<Violation> {
             }
         }
         if matches!(kind, "hub.bond" | "hub.bondst" | "hub.bondrw" | "hub.check" | "hub.ugi" | "tok.send.convert" | "tok.sendfrom.convert")
-            && post.hub_bank != pre.hub_bank
+            && post.hub_bank != pre.hub_bank + (if matches!(kind, "hub.check" | "hub.ugi") { attached_to_hub(op) } else { 0 })
         {
             out.push(v("C02", "hub-balance-changed", format!("{}: hub liquid balance {} → {}", kind, pre.hub_bank, post.hub_bank)));
             if kind == "hub.ugi" {
@@ -1110,7 +1134,7 @@ pub fn check_step(cx: &StepCtx) -> Vec<Violation> {
                     // C06: loss on stake slashed while unbonding is spread pro rata per token type
                     {
                         let newly: Vec<&HistView> = post.hist.iter().filter(|h| h.released && !pre.hist.iter().any(|p| p.id == h.id && p.released)).collect();
-                        let arrived = pre.hub_bank.saturating_sub(pre.raw[5]);
+                        let arrived = (pre.hub_bank + attached_to_hub(op)).saturating_sub(pre.raw[5]);
                         let b_tot: u128 = newly.iter().map(|h| floor_mul(h.b_amt, h.b_applied)).sum();
                         let s_tot: u128 = newly.iter().map(|h| floor_mul(h.s_amt, h.s_applied)).sum();
                         if !newly.is_empty() && b_tot + s_tot > arrived && b_tot + s_tot <= D {
@@ -1142,7 +1166,7 @@ pub fn check_step(cx: &StepCtx) -> Vec<Violation> {
                     // release group: paid-out capacity never exceeds arrivals
                     let newly: Vec<&HistView> = post.hist.iter().filter(|h| h.released && !pre.hist.iter().any(|p| p.id == h.id && p.released)).collect();
                     if !newly.is_empty() {
-                        let arrived = pre.hub_bank.saturating_sub(pre.raw[5]);
+                        let arrived = (pre.hub_bank + attached_to_hub(op)).saturating_sub(pre.raw[5]);
                         let alloc: u128 = newly.iter().map(|h| floor_mul(h.b_amt, h.b_withdraw) + floor_mul(h.s_amt, h.s_withdraw)).sum();
                         if alloc > arrived {
                             // classify: D5 signature = n ≥ 3 and n·slashed ≥ 10^18
@@ -1178,7 +1202,7 @@ pub fn check_step(cx: &StepCtx) -> Vec<Violation> {
                             let h2 = c2.hub_history();
                             let newly: Vec<&HistView> = h2.iter().filter(|h| h.released && !pre.hist.iter().any(|p| p.id == h.id && p.released)).collect();
                             let expected: u128 = newly.iter().map(|h| floor_mul(h.b_amt, h.b_applied) + floor_mul(h.s_amt, h.s_applied)).sum();
-                            let arrived = pre.hub_bank.saturating_sub(pre.raw[5]);
+                            let arrived = (pre.hub_bank + attached_to_hub(op)).saturating_sub(pre.raw[5]);
                             let sl = expected.saturating_sub(arrived);
                             let n = newly.len() as u128;
                             let d5 = n >= 3 && n.saturating_mul(sl) >= D;
